@@ -83,6 +83,7 @@ class Run:
         self.plan = plan
         self.leaf = 0
         self.log = []
+        self.by_path = {}      # node path -> the real spec object built for it
 
 
 class Leaf:
@@ -166,6 +167,10 @@ class VDefault:
 
 
 VDEFAULT = VDefault()
+# how the vbind / vset / vread nodes are realised: 'vars' S(v=Vars({'k': d})), A.v.k, S.v.k;
+# 'dict' S(v={'k': d}), A.v['k'], S.v['k'] (a dict literal is rebuilt per evaluation by the argument
+# mode); 'edict' S(v={}) (the empty literal; an unset entry reads as the default)
+VARS_FLAVOUR = ['vars']
 
 
 class Mark:
@@ -185,8 +190,12 @@ class Read:
     """logs what S.<name> (or S.globals.<name>) resolves to at this position"""
     def __init__(self, run, path, name, glob=False, style='attr', what='read'):
         self.run, self.path, self.name, self.glob, self.what = run, tuple(path), name, glob, what
-        if what == 'vread':
+        if what == 'vread' and VARS_FLAVOUR[0] == 'vars':
             self.spec = Coalesce(getattr(getattr(S, name), 'k'), default=Val(INV))
+        elif what == 'vread' and VARS_FLAVOUR[0] == 'dict':
+            self.spec = Coalesce(getattr(S, name)['k'], default=Val(INV))
+        elif what == 'vread':
+            self.spec = Coalesce(getattr(S, name)['k'], Pipe(getattr(S, name), Val(VDEFAULT)), default=Val(INV))
         elif glob:
             self.spec = Coalesce(getattr(S.globals, name), default=Val(INV))
         elif style == 'item':
@@ -269,12 +278,12 @@ def build(tree, run, path=(), index=None):
         s = Mark(run, path)
     elif k == 'vbind':
         from glom import Vars
-        v = Vars({'k': VDEFAULT})
+        v = Vars({'k': VDEFAULT}) if VARS_FLAVOUR[0] == 'vars' else {'k': VDEFAULT} if VARS_FLAVOUR[0] == 'dict' else {}
         s = S(**{a: v})
         if index is not None:
             index[id(v)] = path + (0,)
     elif k == 'vset':
-        s = getattr(getattr(A, a), 'k')
+        s = getattr(getattr(A, a), 'k') if VARS_FLAVOUR[0] == 'vars' else getattr(A, a)['k']
     elif k == 'refdef':
         from glom import Ref
         s = Ref(a, child(0))
@@ -332,6 +341,7 @@ def build(tree, run, path=(), index=None):
             index[id(s.d)] = path + (0,)
     else:
         raise ValueError(k)
+    run.by_path[tuple(path)] = s
     if index is not None:
         index[id(s)] = path
         if k == 'dict':
@@ -423,7 +433,7 @@ class BigTok(Tok):
         return 7
 
 
-def execute(tree, plan, caller_scope=None, hook=True, prebuilt=None, big_root=False, multiline_for=0):
+def execute(tree, plan, caller_scope=None, hook=True, prebuilt=None, big_root=False, multiline_for=0, flavour='vars'):
     """run the real library on the realisation of tree; returns dict(out, log, events, error).
     prebuilt: (spec, run, index) of an earlier execute() -- evaluates the SAME spec objects again"""
     if prebuilt is not None:
@@ -432,7 +442,11 @@ def execute(tree, plan, caller_scope=None, hook=True, prebuilt=None, big_root=Fa
     else:
         run = Run(plan)
         index = {}
-        spec = build(tree, run, (), index)
+        VARS_FLAVOUR[0] = flavour
+        try:
+            spec = build(tree, run, (), index)
+        finally:
+            VARS_FLAVOUR[0] = 'vars'
     rec = Recorder(index)
     if hook:
         glom.core._verif_install(rec)
